@@ -23,7 +23,8 @@ CHECKS = {
      text="Explicit-state BFS from the initial state and from four seeded states in which two sides already share the "
           "nameplate/mailbox; 3 (thorough 4) sides over up to 5 connections. Sides are ranked by first arrival per mailbox "
           "incarnation: a side ranked >=3 must get exactly one error (crowded) and no id and never a message of that "
-          "mailbox; the first two keep delivery (C02 clause) and storage (C01 clause). One known finding (F6).",
+          "mailbox; the first two keep delivery (C02 clause) and storage (C01 clause); a second exploration puts a restart "
+          "after each seed so that the first command a rebuilt server sees comes from a third side. One known finding (F6).",
      tech="explicit-state BFS of the implementation with arrival-order ghost; known-findings filter"),
  "C07": dict(cat="model_checking", ref="DESIGN.md §4 C07",
      text="Explicit-state BFS over claim/release/close/list/disconnect by 3 sides over 2 nameplates (one side may hold both "
@@ -63,7 +64,8 @@ CHECKS = {
           "(each type with required fields present/absent, optional fields, extra keys, no/unknown/non-string type, odd "
           "Unicode identifiers); per command: welcome, ack-first with id echo, type+server_tx on every frame, ping/pong, "
           "malformed => exactly one error with orig, rows unchanged, others undisturbed, connection still usable; "
-          "well-formed => never a validation error; no exception escapes onMessage. One known finding (F2).",
+          "well-formed => never a validation error; no exception escapes onMessage. Three explorations: no welcome notices, "
+          "all notices, and --disallow-list with a third side arriving at a held nameplate. One known finding (F2).",
      tech="explicit-state BFS of the implementation with a protocol-state ghost deciding the expected class of answer"),
  "C06": dict(cat="model_checking", ref="DESIGN.md §3.2, §4 C06",
      text="Lockstep product exploration: world 0 runs the full history mixing apps X and Y (identical names, sides, "
@@ -86,13 +88,14 @@ CHECKS = {
      text="(a) BFS over the union driver, every state extended by 'all clients leave, clock advances E+2P': store must be "
           "empty, every sweep removes every idle channel completely, sweeps stay on the P-lattice; (b) the timed skeleton "
           "family of C12; (c) fault injection: the first channel-db access of sweep k raises OperationalError for every k "
-          "in the horizon of selected scenarios: the loop must stay scheduled and the next sweep must do the work.",
+          "in the horizon of selected scenarios: the loop must stay scheduled and the next sweep must do the work; (d) a "
+          "file-backed exploration with one restart before quiescence (rows written by a previous process are swept too).",
      tech="explicit-state BFS with a quiescence closure + timed scenario enumeration + per-sweep fault injection on the implementation"),
  "C14": dict(cat="model_checking", ref="DESIGN.md §3.2, §4 C14",
      text="Lockstep product: base history vs. the same history with ONE acknowledged claim/release/open/close re-sent "
           "immediately on a fresh connection of the same side; every position of the duplicate in every base history "
           "(3 sides, crowding, released nameplates, deleted mailboxes). Duplicate's answer = original's; all later frames "
-          "and channel rows equal (timestamps included).",
+          "and channel rows equal (timestamps included). One known finding (F6 seen as a refused duplicate).",
      tech="explicit-state BFS over a product of two real servers (base vs. duplicated command)"),
  "C15": dict(cat="model_checking", ref="DESIGN.md §4 C15",
      text="Usage database on, observation at commit granularity: each disappearance of a nameplates/mailboxes row <=> exactly "
@@ -123,9 +126,10 @@ CHECKS = {
      tech="exhaustive crash-point enumeration with directory images", engine="mcx-fsx"),
  "C02": dict(cat="model_checking", ref="DESIGN.md §4 C02",
      text="Explicit-state BFS over the real server code: every history (<= depth) of connections/binds/open/add/close/"
-          "disconnect/sweep/restart over 2 apps, 2 sides, 2 mailboxes, up to 4 connections; on every accepted add the "
-          "set of connections that received a message frame must equal the ghost subscription set, exactly once each, "
-          "with the adder's bound side.",
+          "disconnect/sweep/restart over 2 apps, 2 sides, 2 mailboxes, up to 4 connections, from the initial state and "
+          "from two seeded states (a restarted server holding rows; two connections of one side on one mailbox); on every "
+          "accepted add the set of connections that received a message frame must equal the ghost subscription set, "
+          "exactly once each, with the adder's bound side (the add command itself carries a different, client-chosen side).",
      tech="explicit-state BFS of the implementation (replay-based, canonical-state dedup) with a ghost-subscription monitor"),
 }
 NA_REASON = "check not built yet in this round (machinery under construction); no claim is made"
